@@ -156,6 +156,18 @@ theorem solve_stop_kkt (s : McBox Rat) (h : FullInv s) (eps : Rat) (maxIter : Na
   have := (solveLoop_spec eps maxIter _ h).2 hstop
   exact ⟨this.1, kkt_of_maxViolation _ this.1 eps this.2⟩
 
+/-- the loop the driver runs is the modelled loop when the re-tabulation is the identity -/
+theorem solveLoopWith_id (eps : Rat) (fuel : Nat) (st : SolveSt Rat) :
+    solveLoopWith id eps fuel st = solveLoop eps fuel st := by
+  induction fuel generalizing st with
+  | zero => rfl
+  | succ fuel ih =>
+    unfold solveLoopWith solveLoop
+    dsimp only [id]
+    split_ifs
+    · exact ih _
+    · rfl
+
 /-! ### the constant data -/
 
 theorem sameStatic_solveTail (eps : Rat) (st : SolveSt Rat) (i j : Nat) : SameStatic st.s (solveTail eps st i j).s := by
